@@ -227,3 +227,70 @@ Definition fs_run (c : scfg) (cr : creator) (mf : mergefn) (ins : list entry) : 
   | (i, Panic) => (i, Panic)
   | (i, Fail e) => (i, Fail e)
   end.
+
+(* ---- the same insert, returning also the state the sorter is left in when it fails, so that a caller
+   who goes on after a transient ChunkCreator failure can be followed.  Every call of the creator, failed or
+   not, is logged (EvCreate), so [cr] is indexed by the attempt number: [cr_fail_at j e] fails one call.
+     - create fails in write_chunk: nothing else has happened, the entry is not stored;
+     - create fails in merge_chunks: the chunk has been written and the entry stored.
+   (A failure of the merge function inside write_chunk leaves the pending entries in place; inside
+   merge_chunks the drained chunks are lost: those states are not followed here and are returned as the
+   state before the step.) *)
+Definition log_create (st : sstate) : sstate :=
+  mk_sstate (ss_pending st) (ss_buf st) (ss_chunks st) (ss_calls st) (EvCreate :: ss_events st).
+
+Definition fs_insert_r (c : scfg) (cr : creator) (mf : mergefn) (st : sstate) (k v : bytes) : sstate * outcome unit :=
+  if (U32_MAX <? len k) || (U32_MAX <? len v) then (st, Panic) else
+  let sz := entry_sz k v in
+  match eb_fits (ss_buf st) sz with
+  | Panic => (st, Panic)
+  | Fail e => (st, Fail e)
+  | Done f =>
+    let threshold_exceeded := sc_threshold c <=? eb_L (ss_buf st) in
+    if f || (negb threshold_exceeded && sc_realloc c) then
+      match eb_insert 80 (ss_buf st) sz with
+      | Done b => (mk_sstate ((k, v) :: ss_pending st) b (ss_chunks st) (ss_calls st) (ss_events st), Done tt)
+      | Panic => (st, Panic)
+      | Fail e => (st, Fail e)
+      end
+    else
+      match cr (creates (ss_events st)) with
+      | Some e => (log_create st, Fail e)
+      | None =>
+        match s_write_chunk mf st with
+        | Panic => (st, Panic)
+        | Fail e => (st, Fail e)
+        | Done st1 =>
+          match eb_insert 80 (ss_buf st1) sz with
+          | Panic => (st1, Panic)
+          | Fail e => (st1, Fail e)
+          | Done b =>
+            let st2 := mk_sstate [(k, v)] b (ss_chunks st1) (ss_calls st1) (ss_events st1) in
+            if sc_max_chunks c <=? len (ss_chunks st2) then
+              match cr (creates (ss_events st2)) with
+              | Some e => (log_create st2, Fail e)
+              | None =>
+                match s_merge_chunks mf st2 with
+                | Done st3 => (st3, Done tt)
+                | Panic => (st2, Panic)
+                | Fail e => (st2, Fail e)
+                end
+              end
+            else (st2, Done tt)
+          end
+        end
+      end
+  end.
+
+(* a run that goes on after failed inserts: the result of every insert, the final state *)
+Fixpoint fs_inserts_r (c : scfg) (cr : creator) (mf : mergefn) (st : sstate) (ins : list entry)
+  : sstate * list (outcome unit) :=
+  match ins with
+  | [] => (st, [])
+  | (k, v) :: r =>
+    let x := fs_insert_r c cr mf st k v in
+    match snd x with
+    | Panic => (fst x, [Panic])                      (* a panic ends the run *)
+    | o => let y := fs_inserts_r c cr mf (fst x) r in (fst y, o :: snd y)
+    end
+  end.
